@@ -19,6 +19,10 @@ OBSERVERS = ('Container.get_volume', 'Container.get_concentration')
 
 
 def run(ctx):
+    # per-well amounts gathered with numpy.vectorize need an explicit result type: without it the type of the first
+    # well decides, and an empty first well (int 0) truncates every later amount to whole storage units
+    from .c15 import t5 as _vectorize_dtype
+    _vectorize_dtype(ctx, 'C18.R3', only=None, dtype_only=True)
     model = ctx.model
     from .configtime import config_at_call_time
     config_at_call_time(ctx, 'C18.R4', classes=None)
